@@ -90,45 +90,11 @@ Definition check_proof (c : proof_case) : N :=
 (* ---- layered model (SMT/Layered.v) against the real node store ----
    The harness dumps the DB after every Update of a small history: (sub-tree root hash, encoded sub-tree bytes).
    The layered model runs the same history; its store, encoded as subtree.go encode does, must be the same set. *)
-From LE Require Import SMT.Layered SMT.LayeredFlat.
+From LE Require Import SMT.Layered SMT.LayeredFlat SMT.LayeredCodec.
 Definition lnode : Type := @snode (list N) hsh.
 Definition lflat : Type := list (nat * lnode).
 Definition lstore : Type := list (hsh * lflat).
-Definition node_bytes (x : lnode) : list N :=
-  match x with NE => [2] | NL k v => 0 :: from_bools k ++ v | NS s => 1 :: s end.
-Definition enc_bytes (c : lflat) : list N :=
-  (N.of_nat (length c - 1) mod 256) :: map (fun e => N.of_nat (fst e)) c ++ flat_map (fun e => node_bytes (snd e)) c.
-(* subtree.go newSubTree: leaf = 0x00 key(kl) value(32), stub = 0x01 hash(32), empty = 0x02 *)
-Fixpoint dec_nodes (fuel kl : nat) (d : list N) : option (list lnode) :=
-  match fuel with
-  | O => None
-  | S f =>
-    match d with
-    | [] => Some []
-    | 0 :: r => match dec_nodes f kl (skipn (kl + 32) r) with
-                | Some ns => if Nat.eqb (length (firstn (kl + 32) r)) (kl + 32)
-                             then Some (NL (to_bools (firstn kl r)) (firstn 32 (skipn kl r)) :: ns) else None
-                | None => None end
-    | 1 :: r => match dec_nodes f kl (skipn 32 r) with
-                | Some ns => if Nat.eqb (length (firstn 32 r)) 32 then Some (NS (firstn 32 r) :: ns) else None
-                | None => None end
-    | 2 :: r => match dec_nodes f kl r with Some ns => Some (NE :: ns) | None => None end
-    | _ => None
-    end
-  end.
-Definition dec_bytes (kl : nat) (d : list N) : option lflat :=
-  match d with
-  | [] => None
-  | b :: r =>
-    let nl := S (N.to_nat b) in
-    let str := firstn nl r in
-    match dec_nodes (S (length r)) kl (skipn nl r) with
-    | Some ns => if Nat.eqb (length str) nl && Nat.eqb (length ns) nl
-                 then Some (combine (map N.to_nat str) ns) else None
-    | None => None
-    end
-  end.
-
+(* the byte encoding / decoding of sub-trees is SMT/LayeredCodec.v ([enc_bytes], [dec_bytes], round trip [dec_enc]) *)
 Definition lupdate (sh lv : nat) := @layered_update (list N) hsh hempty hleafk hbranch bytes_eqb sh lv.
 Definition labs (sh lv : nat) := @abs (list N) hsh hempty bytes_eqb sh lv.
 
@@ -150,24 +116,40 @@ Definition dump_ok (sh lv kl : nat) (iroot : hsh) (d : dump) : bool :=
 
 (* (key length in bytes, sub-tree height, batches with the implementation's root and store dump after each) *)
 Definition store_case : Type := N * N * list (list wop * hsh * dump).
-(* the variant with the flat transcriptions of calculateSubTree / treeHasher (SMT/LayeredFlat.v) runs alongside *)
-Definition lupdate_flat (sh lv : nat) := @layered_update_flat (list N) hsh hempty hleafk hbranch bytes_eqb sh lv.
+(* (the variant with the flat transcriptions of calculateSubTree / treeHasher, SMT/LayeredFlat.v, is no longer run alongside:
+   it is proved equal to the model, SMT/LayeredFlatProofs.v layered_update_flat_eq) *)
 Definition state_agrees (st : option (lstore * hsh)) (iroot : hsh) (d : dump) : bool :=
   match st with Some (m, r) => bytes_eqb r iroot && store_eq m d | None => false end.
-Fixpoint run_store (sh lv kl : nat) (st stf : option (lstore * hsh)) (bs : list (list wop * hsh * dump)) : bool * bool :=
+Fixpoint run_store (sh lv kl : nat) (st : option (lstore * hsh)) (bs : list (list wop * hsh * dump)) : bool * bool :=
   match bs with
   | [] => (true, true)
   | (b, iroot, d) :: rest =>
     let st' := match st with Some sr => lupdate sh lv sr (map to_op b) | None => None end in
-    let stf' := match stf with Some sr => lupdate_flat sh lv sr (map to_op b) | None => None end in
-    let agree := state_agrees st' iroot d && state_agrees stf' iroot d in
-    let '(a, o) := run_store sh lv kl st' stf' rest in
-    (agree && a, dump_ok sh lv kl iroot d && o)
+    let '(a, o) := run_store sh lv kl st' rest in
+    (state_agrees st' iroot d && a, dump_ok sh lv kl iroot d && o)
   end.
 Definition check_store (c : store_case) : N :=
   let '(kl, sh, bs) := c in
   let klb := N.to_nat kl in
   let shn := N.to_nat sh in
   let lv := Nat.div (8 * klb) shn in
-  let '(a, o) := run_store shn lv klb (Some ([], hempty)) (Some ([], hempty)) bs in
+  let '(a, o) := run_store shn lv klb (Some ([], hempty)) bs in
   code a o.
+
+(* ---- trie.Prove through the store (SMT/LayeredProve.v): the layered model builds the store from the batches, the
+   code-shaped prover reads it (getSubtree through the stubs) and must return the implementation's proof ---- *)
+From LE Require Import SMT.LayeredProve.
+Definition lprove_case : Type := N * N * list (list wop) * list (list N) * list hsh * list wquery.
+Definition check_lprove (c : lprove_case) : N :=
+  let '(kl, sh, bs, keys, isibs, iqs) := c in
+  let klb := N.to_nat kl in
+  let shn := N.to_nat sh in
+  let lv := Nat.div (8 * klb) shn in
+  match @layered_history (list N) hsh hempty hleafk hbranch bytes_eqb shn lv ([], hempty) (map (map to_op) bs) with
+  | Some (s, r) =>
+    match lprove hempty hleafb hbranch bytes_eqb shn lv s r keys with
+    | Some (msibs, mqs) => code (list_eqb bytes_eqb msibs isibs && list_eqb query_eqb mqs (map to_query iqs)) true
+    | None => 1
+    end
+  | None => 1
+  end.
